@@ -344,8 +344,9 @@ def oracle_tau2(c):
         b_g = c["b"] + 0.5 * float(quad(c["beta"], c["K"]))
         if abs(o["conc"] - a_g) > tol * max(1, abs(a_g)):
             return f"concentration {o['conc']!r} differs from a + rank/2 = {a_g!r}"
-        if abs(o["draw"] - b_g / c["g"]) > tol * max(1, abs(b_g / c["g"])):
-            return f"draw {o['draw']!r} differs from (b + beta'K beta/2)/g = {b_g / c['g']!r}"
+        if abs(o["draw"] - b_g / c["g"]) > tol * abs(b_g / c["g"]):        # relative: no floor, no cap
+            return (f"draw {o['draw']!r} for gamma variate {c['g']} differs from (b + beta'K beta/2)/g = {b_g / c['g']!r} "
+                    f"(b = {c['b']!r}, beta'K beta = {float(quad(c['beta'], c['K']))!r})")
     if o["error_code"] != 0:
         return f"error code {o['error_code']}"
     if abs(o["state_lp"][0] - o["state_lp"][1]) > 10 * tol * max(1.0, abs(o["state_lp"][1])):
@@ -428,6 +429,16 @@ def disc_outcomes(c):
     return list(c["grid"]) if c["prior"] == "finite" else [0, 1]
 
 
+def history(c, outer_jit):
+    """further calls of the SAME kernel object: (mode, s, ys, ns) of the model state handed in"""
+    h = [("eager", 2.0 * c["s"], [0.25 - y for y in c["ys"]], [n + 1.0 for n in c["ns"]]),
+         ("eager", c["s"], list(c["ys"]), list(c["ns"]))]                    # ... and back to the first state
+    if outer_jit:
+        h.append(("outer_jit", 0.5 * c["s"], [y + 0.5 for y in c["ys"]], [n + 2.0 for n in c["ns"]]))
+        h.append(("eager", 2.0 * c["s"], [0.25 - y for y in c["ys"]], [n + 1.0 for n in c["ns"]]))
+    return h
+
+
 def run_disc(c, freq=False):
     from unittest import mock
     L = lib()
@@ -481,6 +492,44 @@ def run_disc(c, freq=False):
     obs["state_lp"] = float(np.asarray(iface.log_prob(out.model_state)))
     # the caller's model is not touched by the kernel (it works on a copy)
     obs["caller_z"] = float(np.asarray(model.vars["z"].value))
+    # ---- history: the same kernel object is called again with model states that differ in nodes the
+    # conditional depends on (scale, data); eagerly, and under an enclosing jax.jit
+    obs["rounds"] = []
+    if ncalls == 1:
+        zdt = jnp.asarray(cur).dtype
+        for mode, s_r, ys_r, ns_r in history(c, outer_jit=freq or c.get("outer_jit", False)):
+            pos_r = {}
+            if c["ys"]:
+                pos_r["sig"] = jnp.asarray(float(s_r))
+                pos_r["ydat" if c.get("resid") else "y"] = jnp.asarray(np.asarray(ys_r, dtype=np.float64))
+            if c["ns"]:
+                pos_r["n"] = jnp.asarray(np.asarray(ns_r, dtype=np.float64))
+            st_r = iface.update_state(pos_r, state) if pos_r else state
+            rd = {"mode": mode, "s": s_r, "ys": ys_r, "ns": ns_r}
+            if mode == "eager":
+                del calls[:]
+                force[0] = 0
+                with mock.patch("jax.random.categorical", fake):
+                    kernel.transition(key, kernel.init_state(key, st_r), st_r, None)
+                rd["logits"] = calls[0][1] if len(calls) == 1 else None
+            else:
+                stash = []
+
+                def spy(k, logits, *args, **kw):
+                    stash.append(logits)
+                    return jnp.asarray(0)
+
+                def jf(k, st):
+                    del stash[:]
+                    o_ = kernel.transition(k, {}, st, None)
+                    return o_.model_state, stash[0]
+
+                with mock.patch("jax.random.categorical", spy):
+                    _, lg = jax.jit(jf)(key, st_r)
+                rd["logits"] = [float(x) for x in np.asarray(lg).ravel()]
+            rd["direct"] = [float(np.asarray(iface.log_prob(iface.update_state({"z": jnp.asarray(o, dtype=zdt)}, st_r))))
+                            for o in draws]
+            obs["rounds"].append(rd)
     if freq or ncalls != 1:
         f = jax.jit(jax.vmap(lambda k: iface.extract_position(
             ["z"], kernel.transition(k, {}, state, None).model_state)["z"]))
@@ -514,6 +563,27 @@ def prob_of(c, o):
     return c["probs"][1] if o == 1 else 1.0 - c["probs"][1]
 
 
+def logit_checks(c, outs, lg, direct, what):
+    """logits lg (one per outcome in outs) vs the model's log_prob at each outcome and vs the closed form"""
+    scale = max([1.0] + [abs(x) for x in direct if math.isfinite(x)])
+    fin = [k for k in range(len(outs)) if math.isfinite(direct[k])]
+    for k in range(len(outs)):
+        if math.isfinite(direct[k]) != math.isfinite(lg[k]) or (not math.isfinite(direct[k]) and lg[k] != direct[k]):
+            return what + f"logit {lg[k]} of outcome {outs[k]} but the model's log_prob with z = {outs[k]} is {direct[k]}"
+    # weights = normalised exp: only differences of logits matter
+    if fin:
+        k0 = fin[0]
+        for k in fin:
+            if abs((lg[k] - lg[k0]) - (direct[k] - direct[k0])) > TOLD * scale:
+                return what + (f"logits {lg} are not the model's log_prob at z = {outs} (all else fixed) {direct} up to a "
+                               f"constant: outcome {outs[k]} vs {outs[k0]}")
+            cf = closed_logit(c, outs[k]) - closed_logit(c, outs[k0])
+            if abs((lg[k] - lg[k0]) - cf) > TOLD * scale:
+                return what + (f"logit difference {lg[k] - lg[k0]!r} of outcomes {outs[k]} vs {outs[k0]} differs from the "
+                               f"closed-form joint log-density difference {cf!r}")
+    return None
+
+
 def oracle_disc(c):
     o = c["obs"]
     want = [float(x) for x in disc_outcomes(c)]
@@ -535,21 +605,17 @@ def oracle_disc(c):
         lg = o["logits"]
         if sorted(outs) != sorted(want):
             return f"forcing the indices 0..{len(lg) - 1} returns {outs}; the outcome set is {want}"
-        fin = [k for k in range(len(outs)) if math.isfinite(direct[k])]
-        for k in range(len(outs)):
-            if math.isfinite(direct[k]) != math.isfinite(lg[k]) or (not math.isfinite(direct[k]) and lg[k] != direct[k]):
-                return f"logit {lg[k]} of outcome {outs[k]} but the model's log_prob with z = {outs[k]} is {direct[k]}"
-        # weights = normalised exp: only differences of logits matter
-        if fin:
-            k0 = fin[0]
-            for k in fin:
-                if abs((lg[k] - lg[k0]) - (direct[k] - direct[k0])) > TOLD * scale:
-                    return (f"logits {lg} are not the model's log_prob at z = {outs} (all else fixed) {direct} up to a "
-                            f"constant: outcome {outs[k]} vs {outs[k0]}")
-                cf = closed_logit(c, outs[k]) - closed_logit(c, outs[k0])
-                if abs((lg[k] - lg[k0]) - cf) > TOLD * scale:
-                    return (f"logit difference {lg[k] - lg[k0]!r} of outcomes {outs[k]} vs {outs[k0]} differs from the "
-                            f"closed-form joint log-density difference {cf!r}")
+        r = logit_checks(c, outs, lg, direct, "")
+        if r:
+            return r
+        for ri, rd in enumerate(o.get("rounds", [])):
+            what = (f"call {ri + 2} of the same kernel object ({rd['mode']}; model state with sig = {rd['s']}, y = {rd['ys']}, "
+                    f"n = {rd['ns']}; first call: sig = {c['s']}, y = {c['ys']}, n = {c['ns']}): ")
+            if rd["logits"] is None or len(rd["logits"]) != len(outs):
+                return what + f"categorical sampler not called exactly once with {len(outs)} logits"
+            r = logit_checks({**c, "s": rd["s"], "ys": rd["ys"], "ns": rd["ns"]}, outs, rd["logits"], rd["direct"], what)
+            if r:
+                return r
         last = direct[len(lg) - 1]
         if math.isfinite(last) and abs(o["state_lp"] - last) > TOLD * scale:
             return f"returned model state is not the updated state at the draw: log_prob {o['state_lp']} vs {last}"
@@ -623,7 +689,14 @@ def gen_K(rnd, kt):
     return [[sum(B[k][i] * B[k][j] for k in range(r)) for j in range(p)] for i in range(p)]
 
 
-def gen_tau2(rnd, idx, kt=None, bt=None, f32=None):
+def gen_tau2(rnd, idx, kt=None, bt=None, f32=None, tinyb=False):
+    if tinyb:
+        # tiny prior scale, coefficients in the null space of the penalty (the builder's start values beta = 0,
+        # constant effects), LARGE gamma variate: the conditional lives far below the float epsilon
+        kt = kt or ["rw1", "zero", "rw2", "scaled", "p1", "block"][idx % 6]
+        bt = bt or ["zero", "null", "zero"][idx % 3]
+        if kt in ("p1", "rw2", "block") or (kt == "zero" and bt == "null"):
+            bt = "zero" if kt != "zero" else bt
     kt = kt or K_STRATA[idx % len(K_STRATA)]
     bt = bt or BETA_STRATA[(idx // len(K_STRATA)) % len(BETA_STRATA)]
     K = gen_K(rnd, kt)
@@ -650,6 +723,12 @@ def gen_tau2(rnd, idx, kt=None, bt=None, f32=None):
          # (numpy's matrix_rank tolerance is relative to the dtype: mixed-scale penalties only in x64 builds)
          "f32": (bool(idx % 5 == 4) if f32 is None else f32) and kt != "tinydiag", "extra": idx % 3 == 1,
          "ts": list(PROFILE_TS)}
+    if tinyb:
+        c["btype"] = bt + ".tinyb"
+        c["f32"] = bool(idx % 2) if f32 is None else f32
+        c["b"] = 2.0 ** -rnd.choice([24, 27, 30, 34])              # 6e-8 .. 6e-11
+        c["g"] = 2.0 ** rnd.choice([6, 10, 14]) if c["f32"] else 2.0 ** rnd.choice([30, 36, 40])
+        c["a"] = rnd.choice([0.5, 1.0, 2.0])
     return c
 
 
@@ -743,6 +822,7 @@ def gen_disc(rnd, idx, st=None):
     if st in ("finite_both", "bern_normal", "finite_sub", "bern_both", "bern_out_rev", "finite_single", "finite_zero_prob",
               "finite_resid", "bern_resid"):
         c["ys"] = [dy(rnd, -2, 2, 4) for _ in range(rnd.randint(1, 3))]
+    c["outer_jit"] = idx % 4 == 1
     c["resid"] = st.endswith("_resid") or (st in ("finite_both", "bern_both") and idx % 4 == 2)
     if st in ("finite_both", "finite_poisson", "bern_both", "finite_sub", "finite_resid"):
         c["ns"] = [float(rnd.randint(0, 5)) for _ in range(rnd.randint(1, 3))]
@@ -799,6 +879,8 @@ def generate(ctx):
     ncorpus = len(cases)
     for i in range(n_tau2):
         cases.append(gen_tau2(rnd, i))
+    for i in range(6 if ctx.quick else 36):
+        cases.append(gen_tau2(rnd, i, tinyb=True))
     for i in range(n_disc):
         cases.append(gen_disc(rnd, i))
     for i in range(n_hand):
@@ -823,6 +905,8 @@ def generate(ctx):
         else:
             if "freq" in c["obs"]:
                 ctx.hist("disc.unpatched_jit_vmap_draws")
+            for rd in c["obs"].get("rounds", []):
+                ctx.hist("disc.history.further_call." + rd["mode"])
         seen.add(json.dumps(strip(c), sort_keys=True, default=str))
         if c["kind"] != "hand":
             ctx.sample({k: v for k, v in strip(c).items() if k not in ("X", "y")} | {"obs": {
@@ -879,6 +963,20 @@ def klit(K):
     return lst(lst(rlit(x) for x in row) for row in K)
 
 
+def logit_lemmas(ci, c, outs, lg, tag):
+    out = []
+    fin = [k for k in range(len(outs)) if math.isfinite(lg[k]) and prob_of(c, outs[k]) > 0]
+    scale = max([1.0] + [abs(lg[k]) for k in fin])
+    for k in fin[1:]:
+        k0 = fin[0]
+        out.append((f"c{ci}_{tag}logit{k}",
+                    f"logit_ok {rlit(prob_of(c, outs[k]))} {rlit(prob_of(c, outs[k0]))} {rlit(c['c0'])} {rlit(c['c1'])} "
+                    f"{rlit(c['s'])} {lst(rlit(y) for y in c['ys'])} {rlit(c['d0'])} {rlit(c['d1'])} "
+                    f"{lst(rlit(n) for n in c['ns'])} {rlit(outs[k])} {rlit(outs[k0])} {rlit(lg[k] - lg[k0])} "
+                    f"{rlit(TOLD * scale)}"))
+    return out
+
+
 def lemmas_of(ci, c, tag=""):
     out = []
     o = c["obs"]
@@ -893,7 +991,7 @@ def lemmas_of(ci, c, tag=""):
         head = f"{rlit(c['a'])} {rlit(c['b'])} {exact_rank(c['K'])} {lst(rlit(x) for x in c['beta'])} {klit(c['K'])}"
         if o["ncalls"] == 1 and finite(o.get("conc")) and finite(o["draw"]):
             out.append((f"c{ci}_{tag}kernel", f"tau2_ok {head} {rlit(c['g'])} {rlit(o['conc'])} {rlit(o['draw'])} "
-                                         f"{rlit(tol * max(1, abs(o['conc'])))} {rlit(tol * max(1, abs(o['draw'])))}"))
+                                         f"{rlit(tol * max(1, abs(o['conc'])))} {rlit(tol * abs(o['draw']) if o['draw'] != 0 else 0)}"))
         if all(finite(x) for x in o["lps"]):
             scale = max(1.0, max(abs(x) for x in o["lps"]))
             for j in range(1, len(c["ts"])):
@@ -904,16 +1002,10 @@ def lemmas_of(ci, c, tag=""):
         outs = o["draws"]
         want = [float(x) for x in disc_outcomes(c)]
         if o["ncalls"] == 1 and len(o["logits"]) == len(outs) and all(d in want for d in outs):
-            lg = o["logits"]
-            fin = [k for k in range(len(outs)) if math.isfinite(lg[k]) and prob_of(c, outs[k]) > 0]
-            scale = max([1.0] + [abs(lg[k]) for k in fin])
-            for k in fin[1:]:
-                k0 = fin[0]
-                out.append((f"c{ci}_logit{k}",
-                            f"logit_ok {rlit(prob_of(c, outs[k]))} {rlit(prob_of(c, outs[k0]))} {rlit(c['c0'])} {rlit(c['c1'])} "
-                            f"{rlit(c['s'])} {lst(rlit(y) for y in c['ys'])} {rlit(c['d0'])} {rlit(c['d1'])} "
-                            f"{lst(rlit(n) for n in c['ns'])} {rlit(outs[k])} {rlit(outs[k0])} {rlit(lg[k] - lg[k0])} "
-                            f"{rlit(TOLD * scale)}"))
+            out += logit_lemmas(ci, c, outs, o["logits"], "")
+            for ri, rd in enumerate(o.get("rounds", [])):
+                if rd["logits"] is not None and len(rd["logits"]) == len(outs):
+                    out += logit_lemmas(ci, {**c, "s": rd["s"], "ys": rd["ys"], "ns": rd["ns"]}, outs, rd["logits"], f"r{ri + 2}")
     return out
 
 
